@@ -63,54 +63,66 @@ def allSome {α} : List (Option α) → Option (List α)
   | some a :: rest => (allSome rest).map (a :: ·)
   | none :: _ => none
 
+/-- first occurrences only (`set(formula.quantifier_vars())`) -/
+def dedupSyms : List Sym → List Sym
+  | [] => []
+  | x :: xs => x :: (dedupSyms xs).filter (fun y => y != x)
+
+/-- the blocks of a prefix bind … -/
+def boundOf (qs : List QBlock) : List Sym := (qs.map (·.2)).flatten
+
+/-- `walk_quantifier`: the variables not shadowed by an inner block form a new outermost block -/
+def prenexQuant (isExists : Bool) (vs : List Sym) (rb : List QBlock × Term) : List QBlock × Term :=
+  let nq := (dedupSyms vs).filter (fun v => !(boundOf rb.1).contains v)
+  if nq.isEmpty then rb else (rb.1 ++ [(isExists, nq)], rb.2)
+
+/-- the `walk_*` function of a node, given the results `rs` for its children and the supply
+counter `n` after them -/
+def prenexNode (fresh : Nat → String) (op : Op) (args : List Term) (p : Payload) (rs : List PRes) (n : Nat) :
+    PRes × Nat :=
+  match op, args, p, rs with
+  | .symbol, _, .sym s, _ =>
+    (if s.ret == .bool && s.params.isEmpty then some ([], .node op args p) else none, n)
+  | .boolConst, _, _, _ => (some ([], .node op args p), n)
+  | .and, _, _, rs =>
+    (match allSome rs with
+     | some as => let r := conjDisj fresh true (Term.node op args p).fv as n; (some r.1, r.2)
+     | none => (none, n))
+  | .or, _, _, rs =>
+    (match allSome rs with
+     | some as => let r := conjDisj fresh false (Term.node op args p).fv as n; (some r.1, r.2)
+     | none => (none, n))
+  | .not, [_], _, [some ra] => (some (prenexNot ra), n)
+  | .implies, [a, b], _, [some ra, some rb] =>
+    let r := prenexImplies fresh (a.fv ++ b.fv) ra rb n
+    (some r.1, r.2)
+  | .iff, [a, b], _, [some ra, some rb] =>
+    let i1 := prenexImplies fresh (a.fv ++ b.fv) ra rb n
+    let i2 := prenexImplies fresh (b.fv ++ a.fv) rb ra i1.2
+    let r := conjDisj fresh true (a.fv ++ b.fv) [i1.1, i2.1] i2.2
+    (some r.1, r.2)
+  | .ite, [c, a, b], _, [some rc, some ra, some rb] =>
+    let i1 := prenexImplies fresh (c.fv ++ a.fv) rc ra n
+    let i2 := prenexImplies fresh (c.fv ++ b.fv) (prenexNot rc) rb i1.2
+    let r := conjDisj fresh true (c.fv ++ a.fv ++ b.fv) [i1.1, i2.1] i2.2
+    (some r.1, r.2)
+  | .function, _, .sym f, _ => (if f.ret == .bool then some ([], .node op args p) else none, n)
+  | .forall_, [_], .qvars vs, [some rb] => (some (prenexQuant false vs rb), n)
+  | .exists_, [_], .qvars vs, [some rb] => (some (prenexQuant true vs rb), n)
+  | .equals, _, _, _ | .le, _, _, _ | .lt, _, _, _ | .bvUlt, _, _, _ | .bvUle, _, _, _
+  | .bvSlt, _, _, _ | .bvSle, _, _, _ | .strContains, _, _, _ | .strPrefixOf, _, _, _
+  | .strSuffixOf, _, _, _ => (some ([], .node op args p), n)
+  | .arraySelect, _, _, _ =>
+    -- repaired behaviour: a Boolean array select is an atom
+    (if (Term.node op args p).typeOf == some .bool then some ([], .node op args p) else none, n)
+  | _, _, _, _ => (none, n)
+
 mutual
 /-- `PrenexNormalizer.walk` -/
 def prenexW (fresh : Nat → String) : Term → Nat → PRes × Nat
   | .node op args p, n =>
     let rs := prenexL fresh args n
-    let n := rs.2
-    match op, args, p, rs.1 with
-    | .symbol, _, .sym s, _ =>
-      (if s.ret == .bool && s.params.isEmpty then some ([], .node op args p) else none, n)
-    | .boolConst, _, _, _ => (some ([], .node op args p), n)
-    | .and, _, _, rs =>
-      (match allSome rs with
-       | some as => let r := conjDisj fresh true (Term.node op args p).fv as n; (some r.1, r.2)
-       | none => (none, n))
-    | .or, _, _, rs =>
-      (match allSome rs with
-       | some as => let r := conjDisj fresh false (Term.node op args p).fv as n; (some r.1, r.2)
-       | none => (none, n))
-    | .not, [_], _, [some ra] => (some (prenexNot ra), n)
-    | .implies, [a, b], _, [some ra, some rb] =>
-      let r := prenexImplies fresh (a.fv ++ b.fv) ra rb n
-      (some r.1, r.2)
-    | .iff, [a, b], _, [some ra, some rb] =>
-      let i1 := prenexImplies fresh (a.fv ++ b.fv) ra rb n
-      let i2 := prenexImplies fresh (b.fv ++ a.fv) rb ra i1.2
-      let r := conjDisj fresh true (a.fv ++ b.fv) [i1.1, i2.1] i2.2
-      (some r.1, r.2)
-    | .ite, [c, a, b], _, [some rc, some ra, some rb] =>
-      let i1 := prenexImplies fresh (c.fv ++ a.fv) rc ra n
-      let i2 := prenexImplies fresh (c.fv ++ b.fv) (prenexNot rc) rb i1.2
-      let r := conjDisj fresh true (c.fv ++ a.fv ++ b.fv) [i1.1, i2.1] i2.2
-      (some r.1, r.2)
-    | .function, _, .sym f, _ => (if f.ret == .bool then some ([], .node op args p) else none, n)
-    | .forall_, [_], .qvars vs, [some rb] =>
-      let bound := (rb.1.map (·.2)).flatten
-      let nq := vs.eraseDups.filter (fun v => !bound.contains v)
-      (some (if nq.isEmpty then rb else (rb.1 ++ [(false, nq)], rb.2)), n)
-    | .exists_, [_], .qvars vs, [some rb] =>
-      let bound := (rb.1.map (·.2)).flatten
-      let nq := vs.eraseDups.filter (fun v => !bound.contains v)
-      (some (if nq.isEmpty then rb else (rb.1 ++ [(true, nq)], rb.2)), n)
-    | .equals, _, _, _ | .le, _, _, _ | .lt, _, _, _ | .bvUlt, _, _, _ | .bvUle, _, _, _
-    | .bvSlt, _, _, _ | .bvSle, _, _, _ | .strContains, _, _, _ | .strPrefixOf, _, _, _
-    | .strSuffixOf, _, _, _ => (some ([], .node op args p), n)
-    | .arraySelect, _, _, _ =>
-      -- repaired behaviour: a Boolean array select is an atom
-      (if (Term.node op args p).typeOf == some .bool then some ([], .node op args p) else none, n)
-    | _, _, _, _ => (none, n)
+    prenexNode fresh op args p rs.1 rs.2
 /-- the results for the children, left to right, threading the supply counter -/
 def prenexL (fresh : Nat → String) : List Term → Nat → List PRes × Nat
   | [], n => ([], n)
@@ -148,5 +160,18 @@ def quantInBoolPos : Term → Bool
       if (Term.node op args p).typeOf == some .bool then (args.map quantInBoolPos).all id
       else (Term.node op args p).isQF
     | _ => (Term.node op args p).isQF
+
+/-- duplicate-free list of bound variables -/
+def nodupB : List Sym → Bool
+  | [] => true
+  | x :: xs => !xs.contains x && nodupB xs
+
+/-- no binder of the term lists a variable twice (an assumption of `prenex_equiv_partial`) -/
+def nodupBinders : Term → Bool
+  | .node _ args p =>
+    (args.map nodupBinders).all id && (match p with | .qvars vs => nodupB vs | _ => true)
+
+/-- the walk draws no fresh symbol: no bound variable clashes with a reserved one -/
+def noRename (fresh : Nat → String) (t : Term) : Bool := (prenexW fresh t 0).2 == 0
 
 end PySMT.Rewritings
